@@ -242,13 +242,29 @@ INITIAL_VALID = {"keyed": "self", "signed": "self", "idd": "self", "sized": True
 
 
 class RecordFlow:
-    def __init__(self, ctx, fn, root, via_param):
+    def __init__(self, ctx, fn, root, via_param, chain=()):
+        """chain: further locals the same object is moved into, in order (a
+        work copy handed by value through an inlined helper and back)"""
         self.ctx = ctx
         self.fn = fn
         self.an = ctx.an(fn)
         self.root = root
         self.via_param = via_param
-        self.events = self.an.events(root, via_param)
+        self.chain = [root] + list(chain)
+        self.events = {}
+        for n, r in enumerate(self.chain):
+            evs = self.an.events(r, via_param if n == 0 else False)
+            for bb, lst in evs.items():
+                for ev in lst:
+                    if n > 0 and ev["kind"] == "def":
+                        continue  # the hand-over itself
+                    if n < len(self.chain) - 1 and ev["kind"] == "move":
+                        continue
+                    ev = dict(ev)
+                    ev["root"] = r
+                    self.events.setdefault(bb, []).append(ev)
+        for bb in self.events:
+            self.events[bb].sort(key=lambda ev: ev["idx"])
         self.actions = {}  # (bb, idx, kind) -> interpreted action
         self.notes = []
         self.size_guards = []  # (switch bb, q_expr, label, set)
@@ -545,11 +561,79 @@ def work_objects(ctx, fn):
         if d is None:
             continue
         node = d[2]
+        # `let mut work = tmp;` with tmp = self.clone() used for nothing else
+        rv0 = getattr(node, "rv", None)
+        if rv0 is not None and rv0.kind == "use" and rv0.ops[0].kind == "move" and rv0.ops[0].place.is_local() and is_enr_ty(fn.local_ty(rv0.ops[0].place.local)):
+            t0 = rv0.ops[0].place.local
+            d0 = an.unique_def(t0)
+            uses = [1 for evs in an.events(t0, False).values() for ev in evs if ev["kind"] not in ("def", "move")]
+            if d0 is not None and not uses and t0 > fn.arg_count:
+                d, node = d0, d0[2]
         if hasattr(node, "callee") and node.callee is not None and node.callee.name == "clone" and node.args:
             src = an.operand_target(node.args[0])
             if src is not None and src[0] == 1 and src[2] is True and src[1] == []:
                 out.append((l, d))
     return out
+
+
+def value_chain(an, bb, idx, op, stop=None, keep=None):
+    """Follow a moved value back through plain moves, `Ok(..)`/`Some(..)`
+    wrapping, `?` and payload projections, using the reaching definitions at
+    each use (unique on a threaded CFG).  Returns the locals that held the
+    value itself (not a wrapper of it), oldest first; stops early at the first
+    local for which stop(local) holds.  None if the trail is lost before any
+    local was recorded."""
+    fn = an.fn
+    if isinstance(op, int):
+        cur = op
+    else:
+        if op.kind not in ("copy", "move") or op.place.proj:
+            return None
+        cur = op.place.local
+    pos = (bb, idx)
+    chain = []
+    wrapped = 0
+    for _ in range(40):
+        if wrapped == 0 and (keep is None or keep(cur)):
+            if not chain or chain[0] != cur:
+                chain.insert(0, cur)
+            if stop is not None and stop(cur):
+                return chain
+        rds = an.reaching_defs(cur, pos[0], pos[1])
+        if len(rds) != 1 or rds[0] == "entry":
+            break
+        dbb, didx, node = rds[0]
+        rv = getattr(node, "rv", None)
+        if rv is not None:
+            if rv.kind == "use" and rv.ops[0].kind in ("copy", "move"):
+                p = rv.ops[0].place
+                if p.is_local():
+                    cur, pos = p.local, (dbb, didx)
+                    continue
+                names = [e.get("name") for e in p.proj if isinstance(e, dict)]
+                if len(p.proj) == 2 and isinstance(p.proj[0], dict) and "down" in p.proj[0] and names[0] in ("Continue", "Ok", "Some") and names[1] == "0":
+                    wrapped += 1
+                    cur, pos = p.local, (dbb, didx)
+                    continue
+                break
+            if rv.kind == "aggregate" and rv.j.get("agg") == "adt" and ("%s::%s" % (rv.j.get("adt"), rv.j.get("variant"))) in ("std::result::Result::Ok", "std::option::Option::Some", "std::ops::ControlFlow::Continue") and len(rv.ops) == 1 and rv.ops[0].kind in ("copy", "move") and rv.ops[0].place.is_local() and wrapped > 0:
+                wrapped -= 1
+                cur, pos = rv.ops[0].place.local, (dbb, didx)
+                continue
+            break
+        c = getattr(node, "callee", None)
+        if c is not None and c.trait == "std::ops::Try" and c.name == "branch" and node.args and node.args[0].kind in ("copy", "move") and node.args[0].place.is_local():
+            cur, pos = node.args[0].place.local, (dbb, len(fn.blocks[dbb].stmts))
+            continue
+        break
+    return chain if (chain and stop is None) else None
+
+
+def object_chain(an, bb, idx, op, is_work_object):
+    """the record-typed locals a committed value passed through, back to the
+    work copy (a clone of *self); None if it does not come from one"""
+    fn = an.fn
+    return value_chain(an, bb, idx, op, stop=is_work_object, keep=lambda l: is_enr_ty(fn.local_ty(l)))
 
 
 def commit_sites(ctx, fn):
